@@ -131,7 +131,7 @@ PROPS = {
                 theorems=[thm("C18_frame", "Cli_Proofs"), thm("C18_prefixes_only_created", "Cli_Proofs"),
                           thm("C18_no_out", "Cli_Proofs"), thm("C18_effect_alphabet", "Sites_Proofs"),
                           thm("pin_main_run", "Pin_main_run"), thm("pin_moq_new", "Pin_moq_new")]),
-    "C19": dict(kind="gen", files=["P_C19.v"], theorems=[thm("C19_numbering_terminates", "P_C19"), thm("C19_numbering_total", "P_C19"), thm("C19_numbering_never_out_of_fuel", "P_C19"), thm("C19_alias_diverges_refuted", "P_C19"), thm("C19_alias_diverges_at_add_import", "P_C19"), thm("C19_error_not_found", "P_C19"), thm("C19_error_not_interface", "P_C19"), thm("C19_error_no_arguments", "P_C19"), thm("C19_no_slice_panic", "P_C19"), thm("C19_variadic_slice_in_range", "P_C19"), thm("C19_run_settled", "P_C19"), thm("C19_run_never_crashes", "P_C19"), thm("C19_resolve_fuel_irrelevant", "P_C19")], oracle=O.o_c19, known=["alias_resolution_diverges"]),
+    "C19": dict(kind="gen", files=["P_C19.v"], theorems=[thm("C19_numbering_terminates", "P_C19"), thm("C19_numbering_total", "P_C19"), thm("C19_numbering_never_out_of_fuel", "P_C19"), thm("C19_alias_diverges_refuted", "P_C19"), thm("C19_alias_diverges_at_add_import", "P_C19"), thm("C19_alias_diverges_concatenation", "P_C19"), thm("C19_error_not_found", "P_C19"), thm("C19_error_not_interface", "P_C19"), thm("C19_error_no_arguments", "P_C19"), thm("C19_no_slice_panic", "P_C19"), thm("C19_variadic_slice_in_range", "P_C19"), thm("C19_run_settled", "P_C19"), thm("C19_run_never_crashes", "P_C19"), thm("C19_resolve_fuel_irrelevant", "P_C19")], oracle=O.o_c19, known=["alias_resolution_diverges"]),
     "C20": dict(kind="gen", files=["P_C20.v", "P_C20_whole.v", "WholeRun_Proofs.v"], theorems=[thm("C20_alone_or_together", "P_C20_whole"), thm("C20_premises_hold", "P_C20_whole"), thm("C20_parse_plain", "P_C20"), thm("C20_parse_alias", "P_C20"), thm("C20_count_order_names", "P_C20"), thm("C20_count", "P_C20"), thm("C20_method_types_independent", "P_C20")], oracle=O.o_c20, known=[]),
 }
 
